@@ -22,6 +22,8 @@ func main() {
 		cmdCheck(os.Args[2:])
 	case "baseline":
 		cmdBaseline(os.Args[2:])
+	case "replay":
+		cmdReplay(os.Args[2:])
 	default:
 		fmt.Fprintln(os.Stderr, "unknown command", os.Args[1])
 		os.Exit(2)
@@ -60,6 +62,7 @@ func cmdVerify(args []string) {
 	verbose := fs.Bool("v", false, "verbose")
 	only := fs.String("only", "", "only obligations whose name contains this")
 	nosolve := fs.Bool("nosolve", false, "generate only")
+	doReplay := fs.Bool("replay", false, "try to replay failures")
 	fs.Parse(args)
 	t0 := time.Now()
 	e, err := LoadEngine(*repo, nil)
@@ -117,6 +120,12 @@ func cmdVerify(args []string) {
 				st = "FAIL"
 			}
 			fmt.Printf("%s %-70s %-8s %-7s %.2fs %s  [%s]\n", st, o.Name, o.Result, o.Solver, o.Time, o.Pos, o.Text)
+			if !ok && *doReplay {
+				tryReplay(e, "/verif", "", o)
+				if o.Replay != nil {
+					fmt.Printf("     replay confirmed=%v note=%s inputs=%v\n%s\n", o.Replay.Confirmed, o.Replay.Note, o.Replay.Inputs, o.Replay.Output)
+				}
+			}
 			if !ok && *keep != "" {
 				_ = i
 				fmt.Printf("     smt: %s\n", o.File)
